@@ -261,10 +261,15 @@ def build_light(ctx, name, sources, repo_sources, sanitize=True, extra=()):
     return exe
 
 
-def build_full(ctx, name, sources, sanitize=True, extra=(), tsan=False):
-    """build every object of libmorfuse from /repo's working tree (cmake+ninja, LTO off), then link
-    the harness against the object files (the .so hides most symbols)."""
-    b = os.path.join(ctx.tmp, "b")
+def build_lib(ctx, sanitize=True, tsan=False):
+    """build every object of libmorfuse from /repo's working tree once per check (cmake+ninja, LTO off)"""
+    key = "tsan" if tsan else ("san" if sanitize else "plain")
+    cache = getattr(ctx, "_libs", None)
+    if cache is None:
+        cache = ctx._libs = {}
+    if key in cache:
+        return cache[key]
+    b = os.path.join(ctx.tmp, "b_" + key)
     flags = ["-D" + GUARD, "-Wno-error", "-w", "-O1", "-g", "-DNDEBUG", "-fno-omit-frame-pointer"]
     if tsan:
         flags += ["-fsanitize=thread"]
@@ -282,8 +287,18 @@ def build_full(ctx, name, sources, sanitize=True, extra=(), tsan=False):
     for root, _, files in os.walk(os.path.join(b, "src", "CMakeFiles", "morfuse.dir")):
         objs += [os.path.join(root, f) for f in files if f.endswith(".o")]
     if not objs:
-        for root, _, files in os.walk(b):
-            objs += [os.path.join(root, f) for f in files if f.endswith(".o")]
+        raise CheckError("no object files found under " + b)
+    ctx.stats["lib_build_s"] = round(time.time() - t, 1)
+    ctx.libobjs = objs
+    ctx.libbuild = b
+    cache[key] = (b, objs)
+    return cache[key]
+
+
+def build_full(ctx, name, sources, sanitize=True, extra=(), tsan=False):
+    """link a harness against the object files of the whole library (the .so hides most symbols)"""
+    b, objs = build_lib(ctx, sanitize=sanitize, tsan=tsan)
+    t = time.time()
     exe = os.path.join(ctx.tmp, name)
     cmd = CXX_BASE + (["-fsanitize=thread"] if tsan else (SAN_FLAGS if sanitize else [])) + list(extra) + [
         "-I" + os.path.join(REPO, "include"), "-I" + os.path.join(REPO, "src"),
@@ -293,8 +308,6 @@ def build_full(ctx, name, sources, sanitize=True, extra=(), tsan=False):
     ctx.stats["harness_build_s"] = round(time.time() - t, 1)
     if p.returncode != 0:
         raise CheckError("harness link failed:\n" + (p.stdout + p.stderr)[-6000:])
-    ctx.libobjs = objs
-    ctx.libbuild = b
     return exe
 
 
